@@ -124,7 +124,7 @@ WITNESSES = [
     dict(id="c15-term-idx-list", prop="C15", file=S, expect="R15f",
          old="        term_indices = set(term.idx)", new="        term_indices = list(term.idx)"),
     dict(id="c15-number-term-lost", prop="C15", file=S, expect="R15f",
-         old="        if not term_indices:\n            result += term\n            continue", new="        if not term_indices:\n            continue"),
+         old="            result += term.sympy\n            continue", new="            continue"),
     dict(id="c15-unassigned-target-flipped", prop="C15", file=S, expect="R15f",
          old="                        idx_map[target_idx_spin_map[idx]].add(idx)", new='                        idx_map["a"].add(idx)'),
     dict(id="c15-dedup-lost-term", prop="C15", file=S, expect="R15f",
@@ -236,6 +236,18 @@ WITNESSES = [
                     "b": filter(lambda idx: idx not in variant["b"],
                                 idx_map["b"])}
 '''),
+    # fix cdbbd7e (F38): the fock matrix is a spin free one particle operator, only aa and bb do not vanish
+    dict(id="c15-fock-blocks-revert", prop="C15", file=E, expect="R15d",
+         old="            elif name == tensor_names.fock and len(obj.idx) == 2:\n                return (\"aa\", \"bb\")\n", new=""),
+    dict(id="c15-fock-blocks-all-listed", prop="C15", file=E, expect="R15d",
+         old="            elif name == tensor_names.fock and len(obj.idx) == 2:\n                return (\"aa\", \"bb\")",
+         new="            elif name == tensor_names.fock and len(obj.idx) == 2:\n                return (\"aa\", \"ab\", \"ba\", \"bb\")"),
+    dict(id="c15-denominator-blocks-restricted", prop="C15", file=E, expect="R15d",
+         old="            elif name == tensor_names.fock and len(obj.idx) == 2:",
+         new="            elif name in (tensor_names.fock, tensor_names.sym_orb_denom) and len(obj.idx) == 2:"),
+    # fix 103d6a9 (F39): a pure number is added unwrapped (the Term container carries the spin-less targets of the input)
+    dict(id="c15-number-term-container-revert", prop="C15", file=S, expect="R15f",
+         old="            result += term.sympy\n            continue", new="            result += term\n            continue"),
     # ------------------------------------------------------------------ behaviour preserving
     dict(id="c15-ok-copy-comprehension", prop="C15", file=S, expect=None, old=_COPY,
          new="                        complete_variant = {\"a\": set(idx_map[\"a\"]), \"b\": set(idx_map[\"b\"])}"),
@@ -412,4 +424,10 @@ def allowed_spin_blocks(expr: Expr, target_idx: str) -> tuple[str]:''')]),
                       if idx not in variant["b"])}
         addition = {sp: list(gen) for sp, gen in lazy.items()}
 '''),
+    # twins of the repaired logic
+    dict(id="c15-ok-fock-blocks-generated", prop="C15", file=E, expect=None,
+         old="            elif name == tensor_names.fock and len(obj.idx) == 2:\n                return (\"aa\", \"bb\")",
+         new="            elif len(obj.idx) == 2 and tensor_names.fock == name:\n                return tuple(sp + sp for sp in (\"b\", \"a\"))"),
+    dict(id="c15-ok-number-term-unwrapped-temp", prop="C15", file=S, expect=None,
+         old="            result += term.sympy\n            continue", new="            number = term.sympy\n            result = result + number\n            continue"),
 ]
